@@ -46,6 +46,7 @@ TaskNext ==
                      \/ Step(SupBroadcastG(S, s), SupBroadcastE(S, s))
                      \/ Step(SupClosedG(S, s), SupClosedE(S, s))
                      \/ Step(SupExitG(S, s), SupExitE(S, s))
+                     \/ Step(StopTellG(S, s), StopTellE(S, s))
                      \/ Step(StopRetG(S, s), StopRetE(S, s))
      /\ UNCHANGED kind
   \/ \E a \in Acts : \/ Step(ActSetupDoneG(S, a), ActSetupDoneE(S, a)) /\ UNCHANGED kind
